@@ -5,20 +5,17 @@ import DryocVerif.Spec.Sha512
 import DryocVerif.Spec.Blake2b
 import DryocVerif.Spec.Salsa20
 import DryocVerif.Model.Curve
+import DryocVerif.Model.CurveInst
 import DryocVerif.Model.Sign
 open DryocVerif
 namespace Driver.Curve
 
-/-- Montgomery ladder on an *unclamped-as-given* scalar: the RFC ladder applied to `le k` -/
-def rawLadder (k u : Bytes) : Bytes :=
-  Spec.X25519.encodeUCoordinate (Spec.X25519.ladder (le k) (Spec.X25519.decodeUCoordinate u))
+/-- Montgomery ladder on an *unclamped-as-given* scalar: the RFC ladder applied to `le k`
+(defined in `Model/CurveInst.lean` so that the C05/C12/C13 theorems can mention it) -/
+abbrev rawLadder := Model.Curve.rawLadder
 
-def prims : Model.Curve.Prims where
-  ladder := rawLadder
-  base := Spec.X25519.basePoint
-  hsalsa := fun k i => Spec.Salsa20.hsalsa20 k i
-  sha512 := Spec.Sha512.sha512
-  blake2b := fun n k s p m => Spec.Blake2b.hashSP n k s p m
+/-- the instantiation the theorems of C05/C12/C13 are about -/
+abbrev prims : Model.Curve.Prims := Model.Curve.specPrims
 
 def H := Spec.Sha512.sha512
 
